@@ -55,7 +55,13 @@ theorem inv3_resetKey (s : St) (k : Nat) (h : Inv3 s) : Inv3 (resetKey s k).1 :=
   unfold resetKey
   cases hk : s.key k with
   | none => exact h
-  | some r => exact inv3_startKey _ k false (inv3_reset s k r h hk)
+  | some r =>
+    simp only []
+    have hno : resetTail s (startKey (newRec (cancelOpt s r.gen r.cancelOf) k r.gen) k false) k r.gen =
+        startKey (newRec (cancelOpt s r.gen r.cancelOf) k r.gen) k false := by
+      simp [resetTail, h.k.nn]
+    rw [hno]
+    exact inv3_startKey _ k false (inv3_reset s k r h hk)
 
 theorem inv3_restartKey (s : St) (k : Nat) (h : Inv3 s) : Inv3 (restartKey s k).1 := by
   unfold restartKey
